@@ -1,6 +1,7 @@
 use crate::engine::Run;
 
 pub mod c03;
+pub mod c05;
 pub mod c06;
 pub mod c07;
 pub mod c08;
@@ -12,6 +13,7 @@ pub mod linerules;
 
 pub const TABLE: &[(&str, fn(&mut Run))] = &[
     ("C03", c03::run),
+    ("C05", c05::run),
     ("C06", c06::run),
     ("C07", c07::run),
     ("C08", c08::run),
